@@ -266,6 +266,11 @@ class ClassParser(BaseParser):
 
             context = self.options.make_context(_obj_self.__class__, force_error=True)
             value = field.parse_value(value, context=context)
+            if unprovided(value):
+                # an invalid value under the 'exclude' policy and no default to take its place:
+                # the field is left out, as it is at initialization (never store the marker)
+                _obj_self.__dict__.pop(field.attname, None)
+                return
             _obj_self.__dict__[field.attname] = value
             if callable(post_setattr):
                 post_setattr(_obj_self, field, value, context)
